@@ -515,3 +515,107 @@ where
     keyspace.send(msg).await?;
     Ok(())
 }
+
+#[cfg(feature = "verif")]
+/// Verification hooks (feature `verif`, off by default): sequential entry points next to the
+/// concurrent production path, which is left untouched.
+pub mod verif_hooks {
+    use super::*;
+
+    /// The poller's per-peer record of keyspace change stamps.
+    #[derive(Default)]
+    pub struct Tracker(pub(super) KeyspaceTracker);
+
+    /// What one exchange with a peer did, per keyspace: `(keyspace, modified, removed)`.
+    pub type ExchangeReport = Vec<(String, usize, usize)>;
+
+    /// One anti-entropy exchange with `peer`: poll, fetch state, diff, then apply the removal and
+    /// the modification halves in the requested order (`removals_first`), one after the other.
+    /// The tracker is updated exactly as `repair_members` does (after both halves succeeded).
+    pub async fn repair_peer<S: Storage>(
+        group: KeyspaceGroup<S>,
+        network: RpcNetwork,
+        tracker: &mut Tracker,
+        peer_id: NodeId,
+        peer_addr: SocketAddr,
+        removals_first: bool,
+    ) -> Result<ExchangeReport, anyhow::Error> {
+        let ctx = ReplicationCycleContext {
+            repair_interval: Duration::from_secs(1),
+            group,
+            network,
+        };
+
+        let info = check_node_changes(&ctx, peer_id, peer_addr, &mut tracker.0).await?;
+        let mut report = Vec::new();
+        for change in info.changes {
+            let channel = ctx.network.get_or_connect(peer_addr);
+            let keyspace = ctx.group.get_or_create_keyspace(&change.keyspace).await;
+            let client = ReplicationClient::new(ctx.clock().clone(), channel.clone());
+            let put_ctx = PutContext {
+                progress: ProgressTracker::default(),
+                remote_node_id: peer_id,
+                remote_addr: peer_addr,
+                remote_rpc_channel: channel,
+            };
+            report.push((
+                change.keyspace.clone(),
+                change.modified.len(),
+                change.removed.len(),
+            ));
+
+            if removals_first {
+                handle_removals(keyspace.clone(), change.removed).await?;
+                handle_modified(client, keyspace, change.modified, put_ctx).await?;
+            } else {
+                handle_modified(client, keyspace.clone(), change.modified, put_ctx).await?;
+                handle_removals(keyspace, change.removed).await?;
+            }
+
+            tracker
+                .0
+                .set_keyspace(peer_id, change.keyspace, change.last_updated);
+        }
+
+        Ok(report)
+    }
+
+    /// The production path of one exchange (`begin_keyspace_sync`: both halves run concurrently).
+    pub async fn repair_peer_concurrent<S: Storage>(
+        group: KeyspaceGroup<S>,
+        network: RpcNetwork,
+        tracker: &mut Tracker,
+        peer_id: NodeId,
+        peer_addr: SocketAddr,
+    ) -> Result<ExchangeReport, anyhow::Error> {
+        let ctx = ReplicationCycleContext {
+            repair_interval: Duration::from_secs(1),
+            group,
+            network,
+        };
+
+        let info = check_node_changes(&ctx, peer_id, peer_addr, &mut tracker.0).await?;
+        let mut report = Vec::new();
+        for change in info.changes {
+            report.push((
+                change.keyspace.clone(),
+                change.modified.len(),
+                change.removed.len(),
+            ));
+            begin_keyspace_sync(
+                &ctx,
+                change.keyspace.clone(),
+                peer_id,
+                peer_addr,
+                change.removed,
+                change.modified,
+            )
+            .await?;
+            tracker
+                .0
+                .set_keyspace(peer_id, change.keyspace, change.last_updated);
+        }
+
+        Ok(report)
+    }
+}
